@@ -1794,10 +1794,17 @@ size_t rtosc_scan_arg_val(const char* src,
                 src+=rd;
                 float secfracsf;
 
+                // only take hour and minute if both are there: the next
+                // argument may just be a number ("2000-01-01 5")
+                int hour, min;
                 rd = 0;
-                sscanf(src, " %2d:%2d%n", &m_tm.tm_hour, &m_tm.tm_min, &rd);
+                sscanf(src, " %2d:%2d%n", &hour, &min, &rd);
                 if(rd)
-                 src+=rd;
+                {
+                    m_tm.tm_hour = hour;
+                    m_tm.tm_min = min;
+                    src+=rd;
+                }
 
                 rd = 0;
                 sscanf(src, ":%2d%n", &m_tm.tm_sec, &rd);
